@@ -2,6 +2,7 @@ package protocol
 
 import (
 	"context"
+	"errors"
 	"fmt"
 
 	"github.com/hujm2023/go-sms-protocol/datacoding"
@@ -21,7 +22,14 @@ const (
 	longMsgHeader7ByteFrameKey   = byte(0x06)
 	longMsgHeader7ByteFrameTotal = byte(0x08)
 	longMsgHeader7ByteFrameNum   = byte(0x04)
+
+	// maxLongSmsParts is the largest part count the one-octet total / sequence
+	// counters of the concatenation header can express.
+	maxLongSmsParts = 255
 )
+
+// ErrTooManyParts is returned when a content would need more than 255 parts.
+var ErrTooManyParts = errors.New("content needs more than 255 parts")
 
 // ParseLongSmsContent parses the header of a concatenated SMS.
 // frameKey: Unique identifier for this batch of messages
@@ -85,7 +93,11 @@ func EncodeCMPPContentAndSplit(ctx context.Context, content string, msgFmt datac
 		return [][]byte{encodedData}, actualMsgFmt, nil
 	}
 
-	return splitWithUDHI(encodedData, perMsgLength, frameKey, cutFuncFor(encoder.Name())), actualMsgFmt, nil
+	contents, err = splitWithUDHI(encodedData, perMsgLength, frameKey, cutFuncFor(encoder.Name()))
+	if err != nil {
+		return nil, 0, err
+	}
+	return contents, actualMsgFmt, nil
 }
 
 // DecodeCMPPCContent decodes CMPP content using the provided dataCoding.
@@ -153,7 +165,11 @@ func EncodeSMPPContentAndSplit(ctx context.Context, content string, msgFmt datac
 		return [][]byte{encodedData}, actualMsgFmt, nil
 	}
 
-	return splitWithUDHI(encodedData, perMsgLength, frameKey, cutFuncFor(encoder.Name())), actualMsgFmt, nil
+	contents, err = splitWithUDHI(encodedData, perMsgLength, frameKey, cutFuncFor(encoder.Name()))
+	if err != nil {
+		return nil, 0, err
+	}
+	return contents, actualMsgFmt, nil
 }
 
 // DecodeSMPPCContent decodes SMPP content using the provided dataCoding.
@@ -203,6 +219,9 @@ func encodeAndSplitGSM7Packed(content string, frameKey byte) ([][]byte, datacodi
 	// known afterwards.
 	payloads := splitUnits(contentBytes, datacoding.SplitBy153, cutBeforeGSM7Escape)
 	msgCount := len(payloads)
+	if msgCount > maxLongSmsParts {
+		return nil, 0, ErrTooManyParts
+	}
 	res := make([][]byte, 0, msgCount)
 	for idx, payload := range payloads {
 		// append UDHI
@@ -301,9 +320,12 @@ func cutFuncFor(name datacoding.DataCoding) cutFunc {
 
 // splitWithUDHI splits the long message according to perMsgLength, never inside a character,
 // and adds a 6-byte header for concatenated SMS.
-func splitWithUDHI(data []byte, perMsgLength int, frameKey byte, cut cutFunc) [][]byte {
+func splitWithUDHI(data []byte, perMsgLength int, frameKey byte, cut cutFunc) ([][]byte, error) {
 	payloads := splitUnits(data, perMsgLength, cut)
 	msgCount := len(payloads)
+	if msgCount > maxLongSmsParts {
+		return nil, ErrTooManyParts
+	}
 	contentBytes := make([][]byte, 0, msgCount)
 	for idx, payload := range payloads {
 		contentByte := make([]byte, 0, len(payload)+datacoding.UDHILength)
@@ -321,7 +343,7 @@ func splitWithUDHI(data []byte, perMsgLength int, frameKey byte, cut cutFunc) []
 		contentBytes = append(contentBytes, contentByte)
 	}
 
-	return contentBytes
+	return contentBytes, nil
 }
 
 // ceil: rounding up to the nearest integer.
